@@ -136,7 +136,7 @@ def _spd(n, cplx, cond, rs):
 
 def _cg(a):
     import sigpy as sp
-    n, cplx, use_P, max_iter = int(a["n"]), bool(a["complex"]), bool(a["precond"]), int(a["max_iter"])
+    n, cplx, use_P, max_iter = int(a["n"]), bool(a["complex"]), a["precond"] is True, int(a["max_iter"])
     rs = np.random.RandomState(int(a.get("seed", 0)))
     A = _spd(n, cplx, float(a.get("cond", 100.0)), rs)
     P = _spd(n, cplx, 10.0, rs) if use_P else None
@@ -148,7 +148,10 @@ def _cg(a):
     Af = (lambda v: A @ v)
     if a.get("as_linop"):
         Af = sp.linop.MatMul([n, 1], A) if False else Af
-    alg = sp.alg.ConjugateGradient(Af, b, x, P=(None if P is None else (lambda v: P @ v)), max_iter=max_iter, tol=0)
+    Pf = None if P is None else (lambda v: P @ v)
+    if a.get("precond") == "identity-same-array":
+        Pf = sp.linop.Identity([n])          # hands back the very array it is given
+    alg = sp.alg.ConjugateGradient(Af, b, x, P=Pf, max_iter=max_iter, tol=0)
     bad = []
 
     def en(v):
@@ -846,6 +849,9 @@ def _lls(a):
     if solver == "ADMM":
         kw["max_iter"] = 600
         kw["max_cg_iter"] = 30
+        if a.get("rho") is not None:
+            kw["rho"] = float(a["rho"])
+            kw["max_iter"] = 1500
     if a.get("x0"):
         kw["x"] = np.zeros(shape_x, dt)
     y0, z0 = y.copy(), (None if z is None else z.copy())
